@@ -1174,7 +1174,7 @@ func enumURI(c *mc.Ctx) {
 	if thorough {
 		n, joint = 4, 2
 	}
-	pathAlpha := append(append([]string(nil), hostile...), "/", ".", "?", "#")
+	pathAlpha := append(append([]string(nil), hostile...), "/", ".", "?", "#", "%25") // %25: the decoded path holds a literal '%' (followed by hex digits: "%41")
 	hashAlpha := append(append([]string(nil), hostile...), "#", "?", "/")
 	rawAlpha := []string{"a", "%", "+", "&", "=", ";", " ", "4", "1", "\xff", "?"}
 	argAlpha := append(append([]string(nil), hostile...), "#", "?", "/")
